@@ -174,7 +174,10 @@ fn verify_pass(o: LsmtkOptions) -> String {
             Ok(()) => "VERIFY ok".to_string(),
             Err(e) => match lsmtk::backoff_path(&e) {
                 Some(p) => format!("VERIFY backoff {p}"),
-                None => format!("VERIFY err {}", err_class(&e)),
+                None => {
+                    let d: String = e.to_string().split_whitespace().collect::<Vec<_>>().join("_");
+                    format!("VERIFY err {} {}", err_class(&e), d.chars().take(400).collect::<String>())
+                }
             },
         }
     }));
